@@ -67,9 +67,16 @@ def gen_sequence(seed, n):
             ev, key, tk = seeds.build(kw, key=key)
             steps.append({"cls": "valid/" + sl, "raw": ev})
             prior.append((ev, key))
-        elif roll < 0.45:
+        elif roll < 0.40:
             ev, k = r.choice(prior)
             steps.append({"cls": "resubmit", "raw": json.loads(json.dumps(ev))})
+        elif roll < 0.45:
+            # X, deletion of X, X again, the same deletion again: the duplicate must change nothing
+            X = ref.make_event(key, kind=r.choice([1, 1, 7, 30000]), created_at=gen.T0 + 3, tags=[["d", "cyc"], ["t", "cyc"]], content=subm.token("cyc"))
+            D = ref.make_event(key, kind=5, created_at=gen.T0 + 50, tags=[["e", X["id"]]], content=subm.token("cycdel"))
+            for cls, e in (("valid/cycle-target", X), ("deletion/own/wellformed-e", D), ("resubmit", X), ("resubmit", D)):
+                steps.append({"cls": cls, "raw": json.loads(json.dumps(e))})
+            prior.append((X, key))
         elif roll < 0.57:
             base, k = r.choice(prior)
             kind = r.choice([0, 3, 10000, 19999, 30000, 39999])
